@@ -305,7 +305,7 @@ PROPS["C20"] = {
              {"pkg": "provider/manifest", "files": ["harness/C20/submit.go"], "shims": ["shim.go.tmpl", "shim_loop.go.tmpl"],
               "quick": ["Harness_C20_submit", "Harness_C20_handle_stopping"], "thorough": ["Harness_C20_submit", "Harness_C20_handle_stopping"],
               "opts": {"timeout": 20000, "witness": 2}, "reach": {"Harness_C20_submit": ["accepted-then-abandoned"], "Harness_C20_handle_stopping": ["handled"]}}],
-    "bounds": {"quick": "(*service).Submit with a submitter that gives up before or after its request is accepted: the reply channel handed to the manager accepts the manager's single reply without a receiver; manifest (*manager).run: <=5 environment selects before shutdown is forced; <=2 lease notifications, 1 lease removal, <=2 manifest submissions of 3 kinds (valid, other version, structurally invalid) each with its own capacity-1 reply channel, 1 version update, chain-data fetch ok/failed at any scheduler-chosen point, shutdown at any point; validateRequest runs the real validators on concrete manifests",
+    "bounds": {"quick": "(*service).Submit with a submitter that gives up before or after its request is accepted: the reply channel handed to the manager accepts the manager's single reply without a receiver; manifest (*manager).run: <=5 environment selects before shutdown is forced; <=2 lease notifications, 1 lease removal, <=2 manifest submissions of 3 kinds (valid, other version, structurally invalid) each with its own capacity-1 reply channel, 1 version update, chain-data fetch ok/failed at any scheduler-chosen point, shutdown at any point; the four request channels have the capacity the real newManager gives them (a send on a buffered one is an event of its own); validateRequest runs the real validators on concrete manifests",
                "thorough": "6 and 7 selects"},
     "stubs": LOOP_STUBS + ["sdl.ManifestVersion -> injective tag of the manifest content in the engine (the JSON/SHA-256 hash is outside the encodable fragment); natively the real hash", "hostname service -> always available"],
     "outside_claim": ["the watchdog and the service-level routing of submissions to managers", "the stop timer's linger period (the timer may fire at any select)", "true multi-goroutine interleavings"],
